@@ -128,9 +128,7 @@ Print Assumptions C18_bucket_bound_const.
 (* The bucket never holds more than the largest capacity configured so far. *)
 Theorem C18_tokens_le_capacity : forall cas l o tr s os,
   o <= l -> qrun cas (qinit l o) tr = Some (s, os) -> b_tokens (q_b s) <= q_cap s.
-Proof.
-  exact (fun cas l o tr s os H R => proj1 (qrun_cap cas tr _ _ _ (cap_ok_init l o H) R)).
-Qed.
+Proof. exact tokens_le_capacity. Qed.
 Print Assumptions C18_tokens_le_capacity.
 
 (* The pinned updateToken (load ... store): every take that falls between the load and
@@ -142,6 +140,25 @@ Theorem C18_bucket_bound_one_per_tick_prefix_refuted :
     3 + 1 * count_ticks os + count_ticks os < count_admitted os.
 Proof. exact prefix_one_per_tick_refuted. Qed.
 Print Assumptions C18_bucket_bound_one_per_tick_prefix_refuted.
+
+(* What the pinned code does guarantee, with one ticker goroutine (qrun1: a tick starts
+   only when no updateToken is in progress): the slack is exactly the number of takes
+   admitted between the load and the store of the window's ticks (history variable
+   q_slack) - up to a whole bucket per tick, not one admission per tick. *)
+Theorem C18_bucket_bound_prefix_exact_slack : forall l o tr0 s os0 tr s' os, 0 < o ->
+  qrun1 false (qinit l o) tr0 = Some (s, os0) ->
+  qrun1 false s tr = Some (s', os) ->
+  count_admitted os <=
+    Z.max (b_tokens (q_b s)) 0 + (q_refill s' - q_refill s) + (q_slack s' - q_slack s).
+Proof. exact bucket_window_prefix. Qed.
+Print Assumptions C18_bucket_bound_prefix_exact_slack.
+
+(* ... and it is tight up to the last refill: the refuting schedule has 6 admissions with capacity 3, refill 1, slack 3 (one refilled token is left over). *)
+Theorem C18_bucket_bound_prefix_slack_attained :
+  exists s' os, qrun1 false (qinit 3 1) witness_lost_update = Some (s', os) /\
+                count_admitted os = 6 /\ q_refill s' = 1 /\ q_slack s' = 3.
+Proof. exact prefix_witness_one_ticker. Qed.
+Print Assumptions C18_bucket_bound_prefix_slack_attained.
 
 (* A call or push is refused exactly when the total bucket or (after it) the handler's
    bucket has no token; a refused call gets an error reply with code 500 and its
